@@ -366,4 +366,46 @@ theorem mergeMapped_spec (C : Compression) (K : Nat) (hK : 1 ≤ K) (bs : Nat) :
           congr 1
           simp [List.map_set]
 
+/-! ### any mix of fetches and iterations through the cache -/
+
+theorem runOps_spec (Adm : Checkpoint → Prop) (hk : KeyDetOn Adm) (C : Compression) (sf : StoreFile)
+    (hseek : ∀ d cp, seek sf.index d = some cp → Adm cp) (hadm : ∀ cp ∈ checkpointsOf sf.index, Adm cp)
+    (ops : List ReaderOp) : ∀ (c : BlockCache), CacheInvOn Adm C sf c →
+    (runOps C sf c ops).1 = ops.map (ReaderOp.plain C sf) := by
+  induction ops with
+  | nil => intro c _; rfl
+  | cons op ops ih =>
+    intro c h
+    cases op with
+    | get d =>
+      obtain ⟨h1, h2⟩ := getBytesCached_specOn Adm hk C sf hseek c h d
+      simp only [runOps, List.map_cons, ReaderOp.plain]
+      rw [ih _ h2, h1]
+    | iter al =>
+      obtain ⟨h1, h2⟩ := iterRawCached_spec Adm hk C sf hadm (aliveOfList al) c h
+      simp only [runOps, List.map_cons, ReaderOp.plain]
+      rw [ih _ h2, h1]
+
+theorem holds_runOps (C : Compression) (hcne : ∀ b, b ≠ [] → C.comp b ≠ []) (P : Nat) (hP : 2 ≤ P)
+    (sf : StoreFile) (docs : List Bytes) (hne : docs ≠ []) (h : Holds C P sf docs) (cap : Nat)
+    (ops : List ReaderOp) :
+    (runOps C sf (BlockCache.new cap) ops).1 = ops.map (ReaderOp.plain C sf) := by
+  obtain ⟨groups, cps, hd, hl, hg, hidx⟩ := h
+  have hgne : groups ≠ [] := by intro h0; rw [h0] at hd; exact hne hd.symm
+  have hc := laid_chain C groups 0 0 cps sf.data hl
+  have hcne' : cps ≠ [] := by
+    intro h0
+    have := laid_cps_length C groups 0 0 cps sf.data hl
+    rw [h0] at this
+    exact hgne (List.length_eq_zero_iff.mp this.symm)
+  obtain ⟨_, huniq⟩ := laid_starts C hcne groups 0 0 cps sf.data hl
+  apply runOps_spec (fun cp => cp ∈ cps) (fun a b ha hb he => huniq a ha b hb he) C sf
+  · intro d cp hs
+    rw [hidx, seek_finished P hP cps hcne' hc] at hs
+    exact List.mem_of_find?_eq_some hs
+  · intro cp hcp
+    rw [hidx, checkpointsOf_finished P hP cps hcne' hc] at hcp
+    exact hcp
+  · exact cacheInvOn_new _ C sf cap
+
 end TantivyModel.Store
